@@ -149,6 +149,7 @@ class Ctx:
         self.dummies: dict = {}
         self.fn_ids: dict = {}
         self.fn_keep: list = []  # keeps the functions alive so that ids stay unique
+        self.raw_psum = False  # `to_sympy` builds PoolSum nodes with `Expr.__new__` (bypassing `PoolSum.__new__`)
 
     def fresh(self):
         """Forget the dummy numbering (call before converting an independent expression)."""
@@ -303,6 +304,11 @@ def to_sympy(t, ctx: Ctx):  # noqa: C901, PLR0911, PLR0912
         return base[tuple(to_sympy(a, ctx) for a in t[2])]
     if k == "psum":
         body = to_sympy(t[1], ctx)
+        if getattr(ctx, "raw_psum", False):
+            # the model's RESULT rebuilt WITHOUT the constructor under test (`PoolSum.__new__` would apply its own
+            # normalisation to both sides of the comparison and hide a constructor defect): args stored as given
+            args = [body, *[sp.Tuple(to_sympy(s, ctx), sp.Tuple(*[to_sympy(v, ctx) for v in vals])) for s, vals in t[2]]]
+            return sp.Expr.__new__(PoolSum, *args)
         return PoolSum(body, *[(to_sympy(s, ctx), tuple(to_sympy(v, ctx) for v in vals)) for s, vals in t[2]])
     if k == "node":
         cls = ctx.classes[t[1]]
@@ -311,6 +317,16 @@ def to_sympy(t, ctx: Ctx):  # noqa: C901, PLR0911, PLR0912
         vals = [next(args) if f.metadata.get("sympify") else next(attrs) for f in dataclasses.fields(cls)]
         return cls(*vals)
     raise ValueError(t)
+
+
+def to_sympy_raw(t, ctx: Ctx):
+    """`to_sympy` for a MODEL RESULT: pool sums are built with `Expr.__new__`, not with the constructor under test."""
+    saved = ctx.raw_psum
+    ctx.raw_psum = True
+    try:
+        return to_sympy(t, ctx)
+    finally:
+        ctx.raw_psum = saved
 
 
 def _attr_value(a):
@@ -336,7 +352,7 @@ def same(real_obj, model_ast, ctx: Ctx) -> bool:
     saved = ctx.dummies
     ctx.dummies = {}
     try:
-        rebuilt = to_sympy(model_ast, ctx)
+        rebuilt = to_sympy_raw(model_ast, ctx)  # pool sums of a model result are NOT passed through PoolSum.__new__
     finally:
         ctx.dummies = saved
     if rebuilt == real_obj:
